@@ -193,7 +193,11 @@ def main(argv):
                 last = 'touch ' + (a['f'] or a['t'])
             if a['ev'] == 'Build' and b['ev'] == 'Build':
                 ran.append({'ev': 'Ran', 'goal': a['goal'], 'cause': last,
-                            'make': a['ran'], 'ninja': b['ran']})
+                            'make': a['ran'], 'ninja': b['ran'],
+                            'sym': [d['name'] for d in scripts[i]
+                                    if d['kind'] == 'copy' and
+                                    d.get('mode') == 'symlink' and
+                                    d['ins'][0]['t']]})
         traces.append({'id': i + 1, 'events': [
             {k: v for k, v in e.items() if k != 'note'} for e in ev] + ran})
     rej, st = validate_traces('Backends_Trace', TRACE, traces, chunk=30)
